@@ -289,11 +289,12 @@ func processImportValues(c *chart.Chart, merge bool) error {
 					slog.Warn("ImportValues missing table from chart", "chart", r.Name, slog.Any("error", err))
 					continue
 				}
-				// create value map from child to be merged into parent
+				// create value map from child to be merged into parent; it is a copy, because
+				// merging later imports into b must not write into the child's tables in cvals
 				if merge {
-					b = MergeTables(b, pathToMap(parent, vv.AsMap()))
+					b = MergeTables(b, pathToMap(parent, deepCopyMap(vv.AsMap())))
 				} else {
-					b = CoalesceTables(b, pathToMap(parent, vv.AsMap()))
+					b = CoalesceTables(b, pathToMap(parent, deepCopyMap(vv.AsMap())))
 				}
 			case string:
 				child := "exports." + iv
@@ -306,10 +307,11 @@ func processImportValues(c *chart.Chart, merge bool) error {
 					slog.Warn("ImportValues missing table", slog.Any("error", err))
 					continue
 				}
+				// a copy, as above
 				if merge {
-					b = MergeTables(b, vm.AsMap())
+					b = MergeTables(b, deepCopyMap(vm.AsMap()))
 				} else {
-					b = CoalesceTables(b, vm.AsMap())
+					b = CoalesceTables(b, deepCopyMap(vm.AsMap()))
 				}
 			}
 		}
